@@ -3360,6 +3360,7 @@ impl Zeroconf {
                     out.add_question(q.entry_name(), q.entry_type());
                 }
                 out.clear_cache_flush_bits();
+                out.set_multicast(false); // echo the query ID.
             }
 
             if let Err(InternalError::IntfAddrInvalid(intf_addr)) = send_dns_outgoing(
